@@ -19,7 +19,12 @@ are
 A case is a dict
   {"frames": [{"k": label, "b": [byte, ...]}, ...],   the peer's stream, frame by frame
    "cuts": [n1, n2, ...],                             chunk lengths (sum = stream length)
-   "maxmsg": N, "npend": P, "role": "client" | "server"}
+   "maxmsg": N, "npend": P, "role": "client" | "server",
+   "backlog": bool      the peer has stopped reading before the stream starts (see FakeTransport),
+   "spawn": "concurrent" the P requests are started together before the host is connected:
+                        one connection each, only the last one is filed in the pool;
+                        the stream is fed to every connection, obs["others"] holds the
+                        observations of the further connections}
 and the observation is
   {"init": [bytes written before the first chunk: CSM, the P requests],
    "ptoks": [[token bytes] per pending request],
@@ -38,15 +43,33 @@ PEND_TOKEN_BASE = 0x50  # pending requests get tokens 0x51, 0x52, ...
 
 
 class FakeTransport(asyncio.Transport):
+    """Records what reaches the peer.  Two situations of a real stream transport
+    are distinguished:
+
+    * no backlog (default): write() hands the bytes to the socket at once;
+      close() and abort() both end in connection_lost(None) on a later loop
+      iteration;
+    * backlog (``start_backlog()``; the peer has stopped reading): written
+      bytes queue up behind what is already buffered.  close() keeps them --
+      they are delivered once the peer reads again -- but connection_lost is
+      not reported for as long as the buffer is not drained, i.e. never within
+      the observed execution; abort() throws the queued bytes away (they never
+      reach the peer) and reports connection_lost at once."""
+
     def __init__(self, loop, protocol):
         super().__init__()
         self._loop = loop
         self._protocol = protocol
-        self.out = []  # writes before close
+        self.out = []  # what reaches the peer (writes before close, not discarded by abort)
         self.late = []  # writes after close (a real transport drops them)
         self.closed = False
         self.how_closed = None
         self.lost_reported = False
+        self.backlog_from = None  # index into out from which writes are merely queued
+        self.discarded = 0
+
+    def start_backlog(self):
+        self.backlog_from = len(self.out)
 
     def get_extra_info(self, name, default=None):
         if name == "sockname":
@@ -91,6 +114,13 @@ class FakeTransport(asyncio.Transport):
             return
         self.closed = True
         self.how_closed = how
+        if self.backlog_from is not None:
+            if how == "abort":
+                self.discarded = len(self.out) - self.backlog_from
+                del self.out[self.backlog_from :]
+                self._loop.call_soon(self._report_lost)
+            # close(): waits for the buffer to drain, which the peer does not let happen
+            return
         self._loop.call_soon(self._report_lost)
 
     def _report_lost(self):
@@ -113,14 +143,14 @@ class Recorder:
         self.calls = []  # ("req"|"resp", message) | ("error", exc)
 
     def process_request(self, msg):
-        self.calls.append(("req", msg))
+        self.calls.append(("req", msg, msg.remote))
 
     def process_response(self, msg):
-        self.calls.append(("resp", msg))
+        self.calls.append(("resp", msg, msg.remote))
         return self.real.process_response(msg)
 
     def dispatch_error(self, exc, remote):
-        self.calls.append(("error", exc))
+        self.calls.append(("error", exc, remote))
         return self.real.dispatch_error(exc, remote)
 
     def __getattr__(self, name):
@@ -182,6 +212,7 @@ async def _run(loop, case):
     transports = []
 
     async def fake_create_connection(factory, host=None, port=None, **kw):
+        await asyncio.sleep(0)  # connecting takes at least one trip through the loop
         proto = factory()
         tr = FakeTransport(loop, proto)
         transports.append(tr)
@@ -190,6 +221,7 @@ async def _run(loop, case):
 
     role = case.get("role", "client")
     npend = case.get("npend", 0)
+    concurrent = case.get("spawn") == "concurrent"
     requests = []
     if role == "client":
         loop.create_connection = fake_create_connection
@@ -199,11 +231,13 @@ async def _run(loop, case):
         for j in range(npend):
             msg = aiocoap.Message(code=aiocoap.GET, uri="coap+tcp://peer.example/r%d" % j)
             requests.append(ctx.request(msg, handle_blockwise=False))
-            await loop.settle()
+            if not concurrent:
+                # else: the requests are started together, before the host is connected; each
+                # opens a connection and the pool keeps the one that was established last
+                await loop.settle()
+        await loop.settle()
         if not npend:
             await pool._spawn_protocol(aiocoap.Message(code=aiocoap.GET, uri="coap+tcp://peer.example/"))
-        conn = next(iter(pool._pool.values()))
-        tr = transports[0]
     else:
         pool = tcp.TCPServer()
         pool._tokenmanager = rec
@@ -213,15 +247,19 @@ async def _run(loop, case):
         conn = tcp.TcpConnection(pool, log, loop, is_server=True)
         pool._pool.add(conn)
         tr = FakeTransport(loop, conn)
+        transports.append(tr)
         conn.connection_made(tr)
-    if case.get("maxmsg") is not None:
-        # "Parameter usually set statically per implementation"
-        conn._my_max_message_size = case["maxmsg"]
     await loop.settle()
+    conns = [t.get_protocol() for t in transports]
+    for c in conns:
+        if case.get("maxmsg") is not None:
+            # "Parameter usually set statically per implementation"
+            c._my_max_message_size = case["maxmsg"]
+    reqs_of = [[r for r in requests if r._pipe.request.remote is c] for c in conns]
 
-    def pend_state():
+    def pend_state(rs):
         out = []
-        for r in requests:
+        for r in rs:
             f = r.response
             if not f.done():
                 out.append("pending")
@@ -234,38 +272,59 @@ async def _run(loop, case):
                 out.append("resp")
         return out
 
-    obs = {
-        "init": [list(b) for b in tr.out],
-        "ptoks": [list(k[0]) for k in tman.outgoing_requests.keys()],
-        "steps": [],
-    }
-    nout = len(tr.out)
+    # one observation per connection: the same stream, in the same chunks, on each
+    observations = []
+    for c, t, rs in zip(conns, transports, reqs_of):
+        observations.append(
+            {
+                "init": [list(b) for b in t.out],
+                "ptoks": [list(r._pipe.request.token) for r in rs],
+                "steps": [],
+                "in_pool": (c in pool._pool.values()) if role == "client" else (c in pool._pool),
+            }
+        )
+        if case.get("backlog"):
+            t.start_backlog()
+    nout = [len(t.out) for t in transports]
     ncall = len(rec.calls)
     stream = b"".join(bytes(f["b"]) for f in case["frames"])
+    live = [True] * len(conns)
     pos = 0
     for n in case["cuts"]:
-        if tr.closed:
+        if not any(live):
             break
         chunk = stream[pos : pos + n]
         pos += n
-        exc = ""
-        try:
-            conn.data_received(chunk)
-        except Exception as e:  # asyncio would log it and tear the connection down
-            exc = "%s: %s" % (type(e).__name__, e)
+        excs = [""] * len(conns)
+        fed = list(live)
+        for i, c in enumerate(conns):
+            if not live[i]:
+                continue
+            try:
+                c.data_received(chunk)
+            except Exception as e:  # asyncio would log it and tear the connection down
+                excs[i] = "%s: %s" % (type(e).__name__, e)
         await loop.settle()
-        disp = [project(h, m) for h, m in rec.calls[ncall:] if h in ("req", "resp")]
+        new_calls = rec.calls[ncall:]
         ncall = len(rec.calls)
-        wr = [list(b) for b in tr.out[nout:]]
-        nout = len(tr.out)
-        obs["steps"].append(
-            {"disp": disp, "wr": [x for b in wr for x in b], "closed": tr.closed, "pend": pend_state(), "exc": exc}
-        )
-        if exc:
-            break
-    obs["late_writes"] = len(tr.late)
+        for i, (c, t, rs) in enumerate(zip(conns, transports, reqs_of)):
+            if not fed[i]:
+                continue
+            disp = [project(h, m) for h, m, r in new_calls if h in ("req", "resp") and r is c]
+            nout[i] = min(nout[i], len(t.out))
+            wr = [x for b in t.out[nout[i] :] for x in b]
+            nout[i] = len(t.out)
+            observations[i]["steps"].append({"disp": disp, "wr": wr, "closed": t.closed, "pend": pend_state(rs), "exc": excs[i]})
+            if t.closed or excs[i]:
+                live[i] = False
+    for o, t in zip(observations, transports):
+        o["late_writes"] = len(t.late)
+        o["how_closed"] = t.how_closed
+        o["discarded_writes"] = t.discarded
+    obs = observations[0]
+    obs["others"] = observations[1:]
     obs["loop_exceptions"] = [str(c.get("exception") or c.get("message")) for c in loop.exceptions]
-    obs["errors_dispatched"] = [type(e).__name__ if e is not None else "None" for h, e in rec.calls if h == "error"]
+    obs["errors_dispatched"] = [type(e).__name__ if e is not None else "None" for h, e, r in rec.calls if h == "error"]
     for r in requests:
         if not r.response.done():
             r.response.cancel()
